@@ -164,8 +164,9 @@ class try_parse_int_c:
     ]
     ensures_labels = {0: "a-numeral-incl-leading-minus-is-parsed-to-its-value", 1: "None-exactly-when-the-text-is-not-an-int-literal",
                       2: "null-markers-give-None", 3: "otherwise-int-of-the-text"}
-    ghost = [{"when": "before", "at": "return None", "label": "rejected-text-is-no-numeral", "do": ["use numeral_is_int_literal(some(s))"]},
-             {"when": "before", "at": "return int(s)", "label": "numeral-shape", "do": ["use signed_numeral_shape(some(s))"]}]
+    # the two regular-language facts about the (payload of the) argument, instantiated at entry: no anchor in the body, so a
+    # rewritten body is still judged against the postconditions
+    ghost_entry = ["use numeral_is_int_literal(some(s))", "use signed_numeral_shape(some(s))"]
 
 
 # ------------------------------------------------------------------------------------------------ parse_cif: atom_site decode
